@@ -9,4 +9,10 @@ RULE = ("family `srv` (well-formed mode): every implemented request x NEED_REPLY
         "non-trivial = distinct scenarios in which a reply or acknowledgement was owed at least once.")
 ASSUMPTIONS = ["SET_FEATURES/SET_PROTOCOL_FEATURES take effect with the message that carries them (both ends of the library "
                "decide on the acknowledgement with the new state)", "the SET_LOG_BASE reply body (echo of the log descriptor) is taken as the reference"]
-FAMILIES = [SrvFamily(modes=("wf",), quick=(3000, 0, 0), thorough=(80000, 0, 0))]
+class OwedSrv(SrvFamily):
+    def nontrivial(self, line, obs):
+        # something was written in answer to a request at least once
+        return any(" o=-" not in p for p in self.steps(obs))
+
+
+FAMILIES = [OwedSrv(modes=("wf",), quick=(3000, 0, 0), thorough=(80000, 0, 0))]
